@@ -17,7 +17,7 @@ pub trait StorageTxn {
     /// not already exist.
     fn new_client(&mut self, latest_version_id: Uuid) -> (r: anyhow::Result<()>)
         requires
-            !cs(old(self)@.cur, old(self)@.client_id).exists,
+            !cs(old(self)@.cur, old(self)@.client_id).exists,   // [st.new_client.pre C03 C01 C13]
         ensures
             r is Ok ==> wrote(old(self)@, final(self)@, new_client_spec(latest_version_id)),
             r is Err ==> write_failed(old(self)@, final(self)@, new_client_spec(latest_version_id));
@@ -25,7 +25,7 @@ pub trait StorageTxn {
     /// Set the client's most recent snapshot.
     fn set_snapshot(&mut self, snapshot: Snapshot, data: Vec<u8>) -> (r: anyhow::Result<()>)
         requires
-            cs(old(self)@.cur, old(self)@.client_id).exists,
+            cs(old(self)@.cur, old(self)@.client_id).exists,   // [st.set_snapshot.pre C13 C10]
         ensures
             r is Ok ==> wrote(old(self)@, final(self)@,
                 set_snapshot_spec(cs(old(self)@.cur, old(self)@.client_id), snapshot, data@)),
@@ -37,7 +37,7 @@ pub trait StorageTxn {
     fn get_snapshot_data(&mut self, version_id: Uuid) -> (r: anyhow::Result<Option<Vec<u8>>>)
         requires
             ({ let c = cs(old(self)@.cur, old(self)@.client_id);
-               c.exists && c.snapshot is Some && c.snapshot->Some_0.version_id == version_id }),
+               c.exists && c.snapshot is Some && c.snapshot->Some_0.version_id == version_id }),   // [st.get_snapshot_data.pre C13 C11]
         ensures
             read_only(old(self)@, final(self)@, r is Err),
             r is Ok ==> ({ let c = cs(old(self)@.cur, old(self)@.client_id);
@@ -79,7 +79,7 @@ pub trait StorageTxn {
                &&& !c.versions.dom().contains(version_id)
                &&& !c.children.dom().contains(parent_version_id)
                // A8: fewer than u32::MAX versions between two snapshots
-               &&& counter_bound(c) }),
+               &&& counter_bound(c) }),   // [st.add_version.pre C13 C01 C02 C07]
         ensures
             r is Ok ==> wrote(old(self)@, final(self)@,
                 add_version_spec(cs(old(self)@.cur, old(self)@.client_id), version_id, parent_version_id, history_segment@)),
@@ -90,7 +90,7 @@ pub trait StorageTxn {
     /// once.  It is safe to skip this call for read-only operations.
     fn commit(&mut self) -> (r: anyhow::Result<()>)
         requires
-            !old(self)@.commit_attempted,
+            !old(self)@.commit_attempted,   // [st.commit.pre C13 C05]
         ensures
             r is Ok ==> committed(old(self)@, final(self)@),
             r is Err ==> commit_failed(old(self)@, final(self)@);
@@ -103,7 +103,7 @@ pub trait Storage: Send + Sync {
     /// Begin a transaction for the given client ID.
     fn txn(&self, client_id: Uuid) -> (r: anyhow::Result<Box<dyn StorageTxn + '_>>)
         requires
-            self.may_open(),
+            self.may_open(),   // [st.txn.single C03]
         ensures
             r is Ok ==> open_post(r->Ok_0@, client_id);
 }
